@@ -130,6 +130,8 @@ def cases(tier: str) -> List[Dict[str, Any]]:
                         c = D.make_case(h, second, "fifo", w, country=cc, lang=lang, row_order="chrono")
                         if c:
                             out.append(c)
+    # the data of the 9 inputs bundled with RP2 (up to 4 assets and 41 transactions per sheet, exchange-supplied fiat values, 4 exchanges x 2 holders)
+    out += D.bundled_cases(["rp2_full_report"], methods=("fifo", "hifo") if tier == "quick" else ("fifo", "lifo", "hifo", "lofo"))
     return out
 
 
